@@ -88,6 +88,7 @@ fn check(gsrc: &str, input: &str) -> Result<bool, String> {
 }
 
 pub fn run(g: &str, input: &str) -> Outcome {
+    crate::note_case("c08_span", json!({"grammar": g, "input": input}));
     let expected = "one action per reduction in postfix order, span = first lexeme start .. last lexeme end, zero-length if none".to_string();
     match catch_unwind(AssertUnwindSafe(|| check(g, input))) {
         Err(_) => Outcome { fails: true, observed: "panic".into(), expected },
